@@ -50,7 +50,13 @@ def effect_owners(ct: Container, rep, rule="effect-owners"):
             effs = direct_file_effects(f.node)
             for c, how in effs:
                 n += 1
-                if q in OWNERS:
+                on_handle = isinstance(c.func, ast.Attribute) and is_self_attr(c.func.value, ct.handle)
+                if q in OWNERS and q[1] in ("Tdf.add_block", "Tdf.remove_block") and not on_handle:
+                    # the two mutators are protected by the handle (closed outside a context, read-only in a plain one):
+                    # an effect that names the file by its PATH is not
+                    rep.fail(rule, m.path.name, f.qualname, c, f"`{how}` in {f.qualname} changes the file through its path, not through self.{ct.handle}: "
+                             "neither a closed handle nor a read-only one stops it, so the refusal comes after the file has changed")
+                elif q in OWNERS:
                     rep.ok(rule, f"{m.name}.{f.qualname}: `{how}` (owner)")
                 else:
                     rep.fail(rule, m.path.name, f.qualname, c, f"`{how}` can change a file outside the four owners of file effects (add_block, remove_block, new, copy): it bypasses the write-context discipline")
@@ -166,6 +172,37 @@ def handle_discipline(ct: Container, rep, rule="handle-discipline"):
         else:
             rep.fail(rule, mod, "Tdf.__exit__", ex.node, f"`{what[k]}` is not executed on every path of __exit__ (missing, conditional or after an early return)",
                      construct=f"Tdf.__exit__ :: {what[k]}")
+    # no method re-enters the object from inside a context: leaving the inner `with self:` runs __exit__, which closes the handle and
+    # resets mode and flag of the SURROUNDING session (every later operation of that session is then refused)
+    from ..facts import path_returns
+    nre = 0
+    for f in tdf.all_funcs():
+        if f.name in ("__enter__", "__exit__"):
+            continue
+        has_with = any(isinstance(w_, ast.With) and any(isinstance(i_.context_expr, ast.Name) and i_.context_expr.id == "self" for i_ in w_.items) for w_ in walk_no_nested(f.node)) \
+            or any(isinstance(c_, ast.Call) and norm(c_.func) in ("self.__enter__", "self.__exit__") for c_ in walk_no_nested(f.node))
+        if not has_with:
+            continue
+        nre += 1
+        bad = None
+        if any(isinstance(c_, ast.Call) and norm(c_.func) in ("self.__enter__", "self.__exit__") for c_ in walk_no_nested(f.node)):
+            bad = "calls self.__enter__ / self.__exit__ directly"
+        else:
+            for pe in path_returns(f.node):
+                if not any(isinstance(e, ast.Expr) and isinstance(e.value, ast.Name) and e.value.id == "self" for e in pe.effects):
+                    continue
+                try:
+                    feasible_inside = all(eval_guard(t, (True, "rb", "none", False)) == pol for t, pol in pe.guards)
+                except AnalysisError:
+                    feasible_inside = True
+                if feasible_inside:
+                    bad = "enters `with self:` on a path that is also taken inside an open context"
+        if bad:
+            wnode = next((w_ for w_ in walk_no_nested(f.node) if isinstance(w_, ast.With)), f.node)
+            rep.fail(rule, mod, f"Tdf.{f.name}", wnode, f"{bad}: leaving it closes the handle and ends the surrounding session",
+                     construct=f"Tdf.{f.name} re-enters self")
+        else:
+            rep.ok(rule, f"Tdf.{f.name}: `with self:` only when not inside a context", nontrivial=True)
     # wrappers
     utils = ct.prog.modules.get("tdfUtils")
     if utils is None:
@@ -570,6 +607,8 @@ def reader_purity(ct: Container, cd: Codecs, rep, rule="reader-purity"):
 
 def run(prog, rep):
     self_check()
+    from .. import mutrules as _M
+    rep.attempt(_M.session_boundary, prog, rep)
     ct = Container(prog)
     cd = Codecs(prog)
     cd.flag_errors(rep)
